@@ -24,3 +24,24 @@ Proof.
   - destruct X, Y; nzsolve.
   - destruct X; nzsolve.
 Qed.
+
+(* The hypotheses about the IMAGE f ex_m of a conversion that the round-trip and chain theorems
+   carry (conv2_ok Y X (f m ..) resp. conv2_ok Y Z (f m ..)): for every one of the 72 conversions
+   X -> Y the converted example matrix is off the singular set of every conversion Y -> Z. *)
+Lemma ex_hyps_images :
+  forall X Y f, conv2 QIF X Y = Some f ->
+  forall Z, conv2_ok QIF Y Z (f ex_m ex_z1 ex_z2) ex_z1 ex_z2.
+Proof.
+  intros X Y f E Z.
+  destruct X, Y; cbn in E; try discriminate; injection E as <-; destruct Z; nzsolve.
+Qed.
+
+Lemma ex_hyps_full :
+  char_ok QIF /\ @z0_ok QIF ex_z1 /\ @z0_ok QIF ex_z2 /\
+  (forall X Y, conv2_ok QIF X Y ex_m ex_z1 ex_z2 /\ conv2zi_ok QIF X ex_m ex_z1 ex_z2) /\
+  (forall X Y f, conv2 QIF X Y = Some f ->
+     forall Z, conv2_ok QIF Y Z (f ex_m ex_z1 ex_z2) ex_z1 ex_z2).
+Proof.
+  destruct ex_hyps as (H1 & H2 & H3 & H4).
+  split; [exact H1|]. split; [exact H2|]. split; [exact H3|]. split; [exact H4|exact ex_hyps_images].
+Qed.
